@@ -251,4 +251,35 @@ fn run(e: &Engine) {
         }
     }
     let _ = (Failure::new("", ""), is_command_error(0));
+    // ---- whole-message differential from bytes (recogniser + resolver as the oracle)
+    use crate::gen::enumstr::Partitioned;
+    use crate::props::execdiff::{self, Case as D};
+    if !e.replay_only {
+        if let Err(m) = execdiff::models_agree() {
+            e.harness_error(format!("tree model self-test: {m}"));
+            return;
+        }
+    }
+    let fix = Partitioned { alpha: FIX_ALPHABET, max_len: if cfg!(debug_assertions) { e.tier.pick(5, 5) } else { e.tier.pick(6, 7) }, prefix_len: 2 };
+    let fixr = &fix;
+    e.enumerate::<D, _, _>("bytes-differential-all-strings-fixtree-alphabet", fix.parts(), move |part, f| fixr.run(part, &mut |s| f(D::Fix { bytes: B(s.to_vec()) })), execdiff::check);
+    let cls = Partitioned { alpha: crate::props::c01::CLASS_ALPHABET, max_len: if cfg!(debug_assertions) { e.tier.pick(4, 5) } else { e.tier.pick(6, 7) }, prefix_len: 2 };
+    let clsr = &cls;
+    e.enumerate::<D, _, _>("bytes-differential-all-strings-class-alphabet", cls.parts(), move |part, f| clsr.run(part, &mut |s| f(D::Class { bytes: B(s.to_vec()) })), execdiff::check);
+    // all token strings: deeper than byte strings of the same length (three-unit messages, relative paths)
+    let toks: Vec<Vec<u8>> = execdiff::FIX_TOKENS.iter().map(|t| t.to_vec()).collect();
+    let tok_idx: Vec<u8> = (0..toks.len() as u8).collect();
+    let tp = Partitioned { alpha: &tok_idx, max_len: if cfg!(debug_assertions) { e.tier.pick(5, 6) } else { e.tier.pick(7, 8) }, prefix_len: 2 };
+    let (tpr, toksr) = (&tp, &toks);
+    e.enumerate::<D, _, _>("bytes-differential-all-token-strings", tp.parts(), move |part, f| tpr.run(part, &mut |s| f(D::Fix { bytes: B(execdiff::concat(toksr, s)) })), execdiff::check);
+    e.proptest("bytes-differential-mutated-messages", e.tier.pick(300_000, 8_000_000), || crate::props::c01::mutated_fixed_bytes(0).prop_map(|b| D::Fix { bytes: B(b) }), execdiff::check);
+    e.require_fraction("judged: command error expected", "judged message with two or more units", 0.05);
+    e.require_fraction("judged: undefined header expected", "judged message with two or more units", 0.01);
+    if e.tier == crate::engine::Tier::Thorough {
+        e.fuzz("fuzz-c05_exec", "c05_exec", 40_000_000, |b| if b.first().map_or(false, |x| x & 1 == 1) { D::Class { bytes: B(b[1..].to_vec()) } } else { D::Fix { bytes: B(b.get(1..).unwrap_or(&[]).to_vec()) } }, execdiff::check);
+    }
 }
+
+/// One representative per role on the fixed tree: its mnemonic letters, the
+/// header punctuation, a digit, the data separators, a quote, NL, a high byte.
+pub const FIX_ALPHABET: &[u8] = b"ABCDEX*:;? 1,\"\n\xff";
